@@ -1,6 +1,6 @@
 (* C01  Callbacks fire only for their own live registration and a real cause. *)
 From CV Require Import Base Consts Token PostAction Env Loop.
-From CVP Require Import Token_proofs Loop_frames Seq_lemmas Env_lemmas.
+From CVP Require Import Token_proofs Loop_frames Seq_lemmas Env_lemmas C01_attr.
 Open Scope N_scope.
 
 (* the token check of every built-in source kind: an event whose token is not one the source currently holds never
@@ -32,6 +32,25 @@ Qed.
 Theorem C01_timer_events_real : forall fuel l now ex rest, wh_expire fuel l now = (ex, rest) ->
   Forall (fun e => (w_dl e <= now)%Z) ex /\ (forall e, In e ex -> In e l).
 Proof. intros fuel l now ex rest H. destruct (wh_expire_spec fuel l now ex rest H) as (A & B & _). split; assumption. Qed.
+
+(* WHOLE HISTORIES: attribution. `cbn s o` counts the callback invocations of object o. In ANY state (reached by any history):
+   - processing an event changes the counter of o only if the event's token resolved, generation-checked, to o when its
+     processing began - whatever the callbacks do meanwhile (remove, insert into the freed slot, disable, replace ...);
+   - no operation (insert, remove, enable, disable, update, ... from anywhere) runs a source callback;
+   - the lifecycle loops and the idle phase of a dispatch run no source callback.
+   With C06_token_dead_forever (a token that stopped resolving never resolves again) this is the whole-history reading of
+   "a source's callback runs only for events of its own live registration, never for an event of another or a removed source";
+   the remaining latitude - a source that removes or disables itself may still get the events of the batch entry being
+   processed - is exactly the drain loop inside one process_event. *)
+Theorem C01_callbacks_attributed : forall scr s ev o,
+  Loop.cbn (fst (process_event scr s ev)) o <> Loop.cbn s o -> lc_lookup s (forget_sub_id (unpack (ev_key ev))) = Some o.
+Proof. exact process_event_attributed. Qed.
+Theorem C01_operations_run_no_callback : forall s a, Loop.cbn (exec_action s a) = Loop.cbn s.
+Proof. exact cbc_exec_action. Qed.
+Theorem C01_lifecycle_loops_and_idles_run_no_callback : forall scr bscr l polled idl s,
+  Loop.cbn (fst (before_sleep_loop bscr s l)) = Loop.cbn s /\ Loop.cbn (fst (before_handle_loop s l polled)) = Loop.cbn s /\
+  Loop.cbn (run_idles scr s idl) = Loop.cbn s.
+Proof. intros. split; [apply cbc_before_sleep_loop|split; [apply cbc_before_handle_loop|apply cbc_run_idles]]. Qed.
 
 Example C01_nonvacuous : wf_tok (mkTok 3 7 2) /\ src_has_tok (SPing (mkGen 10 (mkInt true false) Level (Some (mkTok 3 7 0)) true)) (mkTok 3 8 0) = false.
 Proof. split; [repeat split|reflexivity]. Qed.
